@@ -135,7 +135,7 @@ impl Drop for WebsocketStream {
     fn drop(&mut self) {
         if !self.closed {
             self.stream
-                .write_all(Frame::new(Opcode::Close, Vec::new()).as_ref())
+                .write_all(&Vec::<u8>::from(Frame::new(Opcode::Close, Vec::new())))
                 .ok();
         }
     }
